@@ -37,21 +37,32 @@ theorem head_text (n : Note) : symName n ++ opsText (drumOctOps n)
     · simp [hn, hd, opsText]
 
 theorem octOps_text (n : Note) : opsText (octOps n)
-      = (if (n.oct ≠ 0 && n.kind.isNote) = true then (if (!n.kind.isRelative) = true then ".o(" else ".oabs(") ++ toString n.oct ++ ")" else "") := by
+      = (if (n.oct ≠ 0 && (n.kind.isNote || decide (n.kind = .x))) = true then (if (!n.kind.isRelative) = true then ".o(" else ".oabs(") ++ toString n.oct ++ ")" else "") := by
   unfold octOps
   by_cases ho : n.oct = 0
   · simp [ho, opsText]
-  · by_cases hn : n.kind.isNote = true
-    · by_cases hr : n.kind.isRelative = true <;> simp [ho, hn, hr, opsText, Op.text]
-    · simp [ho, hn, opsText]
+  · by_cases hn : n.kind.isNote = true ∨ n.kind = .x
+    · have hn' : (n.kind.isNote || decide (n.kind = .x)) = true := by simpa using hn
+      by_cases hr : n.kind.isRelative = true <;> simp [ho, hn, hn', hr, opsText, Op.text]
+    · have hn' : (n.kind.isNote || decide (n.kind = .x)) = false := by simpa using hn
+      simp [ho, hn, hn', opsText]
 
 theorem ampOps_text (n : Note) : opsText (ampOps n)
-      = (if (n.kind.isNote || decide (n.kind = .x)) = true then (if Eq.ampFigure n.amp ≠ "mf" then "." ++ Eq.ampFigure n.amp else "") else "") := by
+      = (if (n.kind.isNote || decide (n.kind = .x) || decide (n.kind = .d)) = true then
+          (if Eq.ampFigure n.amp = "n" then ".set_amp(0)" else if Eq.ampFigure n.amp ≠ "mf" then "." ++ Eq.ampFigure n.amp else "") else "") := by
   unfold ampOps
-  by_cases hp : n.kind.isNote = true ∨ n.kind = .x
-  · have hp' : (n.kind.isNote || decide (n.kind = .x)) = true := by simpa using hp
-    by_cases hm : Eq.ampFigure n.amp = "mf" <;> simp [hp, hp', hm, opsText, Op.text]
-  · have hp' : (n.kind.isNote || decide (n.kind = .x)) = false := by simpa using hp
+  by_cases hp : n.kind.isNote = true ∨ n.kind = .x ∨ n.kind = .d
+  · have hp' : (n.kind.isNote || decide (n.kind = .x) || decide (n.kind = .d)) = true := by
+      simpa [or_assoc] using hp
+    by_cases hz : Eq.ampFigure n.amp = "n"
+    · simp [hp, hp', hz, opsText, Op.text]
+      decide
+    · by_cases hm : Eq.ampFigure n.amp = "mf" <;> simp [hp, hp', hz, hm, opsText, Op.text]
+  · have hp' : (n.kind.isNote || decide (n.kind = .x) || decide (n.kind = .d)) = false := by
+      have a : n.kind.isNote = false := by simpa using fun h => hp (Or.inl h)
+      have b : ¬ n.kind = .x := fun h => hp (Or.inr (Or.inl h))
+      have d : ¬ n.kind = .d := fun h => hp (Or.inr (Or.inr h))
+      simp [a, b, d]
     simp [hp, hp', opsText]
 
 theorem tagOps_text (n : Note) : opsText (tagOps n)
@@ -67,8 +78,10 @@ theorem noteCode_text_eq (n : Note) : (noteCode n).text = Eq.noteCode n := by
   obtain ⟨kind, val, oct, dur, mode, acc, amp, tags, tempo, pedal⟩ := n
   simp only [Code.text, noteCode, noteOps, opsText_append, durOps_text, Eq.noteCode]
   simp only [h3, h6, h7, ← String.append_assoc, h1]
-  cases mode <;> cases acc <;> simp only [modeOps, accOps, opsText, String.append_empty]
-  all_goals (try split) <;> simp [opsText, Op.text]
+  have hpr : (decide (kind ≠ Kind.r) && decide (kind ≠ Kind.l)) = decide (printed kind) := by
+    unfold printed; by_cases a : kind = .r <;> by_cases b : kind = .l <;> simp [a, b]
+  cases mode <;> cases acc <;> simp only [modeOps, accOps, opsText, String.append_empty, hpr]
+  all_goals (by_cases hp : printed kind <;> simp [hp, opsText, Op.text])
 
 theorem melodyText_eq (m : Melody) : melodyText (melodyCodes m) = Eq.melodyCode m := by
   unfold melodyText melodyCodes Eq.melodyCode
@@ -108,7 +121,7 @@ theorem octText_eq (k : Int) : octText (chordOct k) = Eq.octCode k := by
 
 theorem extSubscript_eq (c : Chord) : extSubscript (extCodeOf c) = Eq.extCode c := by
   unfold extCodeOf Eq.extCode Eq.extText
-  by_cases h : (c.ext.normalize.toText == "5" || c.ext.normalize.toText == "") = true
+  by_cases h : (c.ext.normalize.toText == "") = true
   · simp only [h, ↓reduceIte, extSubscript]
   · simp only [h, Bool.false_eq_true, ↓reduceIte, extSubscript]
 
